@@ -117,7 +117,7 @@ class NamespaceFunction(Namespace[symtable.Function]):
                 # methods may have implicit reference the __class__ (PEP-3135)
                 # which is not need here
                 self.zero_arg_super_used = True
-                break
+                continue
 
             for outer in reversed(stack):
                 if isinstance(outer, NamespaceClass):
